@@ -164,6 +164,9 @@ def _evaluate(case, cfg, s):
             vs.append(verdict("metadata-only", f"C07/metadata-only-stream/{'-'.join(kinds[:4])}", ""))
         if md.source_file_name is not None or md.dest_file_name is not None:
             vs.append(verdict("metadata-fields", "C07/metadata-only-names", ""))
+        if md.file_size != 0:
+            # no file is involved: the size field of the request's Metadata PDU is zero
+            vs.append(verdict("metadata-fields", "C07/metadata-only-size", f"{md.file_size}"))
     else:
         want_kinds = ["MD"] + ["FD"] * n_expected + ["EOF"]
         if kinds != want_kinds:
